@@ -73,6 +73,9 @@ fn module_source(p: &Placed) -> String {
 /// replayable description of a failing case: the module (AST + rendered source) plus details
 pub fn case_of(p: &Placed, extra: Value) -> Value {
     let mut c = json!({"kind": "module", "module": serde_json::to_value(&p.module).unwrap_or(Value::Null), "source": module_source(p)});
+    if let Some(cfg) = subjects::CURRENT_CFG.lock().unwrap().as_ref() {
+        c["slot_cfg"] = cfg.to_json();
+    }
     if let (Some(o), Some(e)) = (c.as_object_mut(), extra.as_object()) {
         for (k, v) in e {
             o.insert(k.clone(), v.clone());
@@ -875,7 +878,7 @@ pub fn replay_module(ctx: &Ctx, property: &str, case: &Value) -> Vec<Value> {
     if property == "C15" {
         return crate::e2d::replay_with_twin(&sub, module);
     }
-    let cfg = if uses_ext(&module) { subjects::SlotCfg::ext() } else { subjects::SlotCfg::default() };
+    let cfg = subjects::SlotCfg::from_json(&inner["slot_cfg"]).unwrap_or_else(|| if uses_ext(&module) { subjects::SlotCfg::ext() } else { subjects::SlotCfg::default() });
     let corpus = build(&sub, vec![module], &cfg);
     if corpus.modules.is_empty() {
         return vec![json!({"signature": "replay-does-not-compile", "message": format!("the module of the replay file no longer compiles: {}", corpus.discarded_samples.first().cloned().unwrap_or_default())})];
@@ -1177,7 +1180,7 @@ pub fn shrink(ctx: &Ctx, property: &str, failure: &Value, max_rounds: usize) -> 
                 c
             })
             .collect();
-        let cfg = if named.iter().any(uses_ext) { subjects::SlotCfg::ext() } else { subjects::SlotCfg::default() };
+        let cfg = subjects::SlotCfg::from_json(&failure["case"]["slot_cfg"]).unwrap_or_else(|| if named.iter().any(uses_ext) { subjects::SlotCfg::ext() } else { subjects::SlotCfg::default() });
         let corpus = build(ctx, named, &cfg);
         let results = for_each_module(ctx, &corpus, |p, s, cwd| module_check(property, p, s, cwd, ctx));
         let mut hit: Option<(usize, Value)> = None;
